@@ -34,7 +34,7 @@ func init() {
 	fw.Register(&fw.Check{
 		ID:    "C08",
 		Level: "model_checking",
-		Rule: "corpus = 18 dedicated programs (closures over shared constant functions, builtin-module values mutated at every depth, source modules with state, errors thrown across two source files and formatted with stack traces in the script and by the host, callbacks on pooled and unpooled child VMs through a host function and through the real strings module, nested callbacks, errors in callbacks, json/fmt modules, globals), each with optimizer on and off, " +
+		Rule: "corpus = 19 dedicated programs (closures over shared constant functions, builtin-module values mutated at every depth, source modules with state, errors thrown across two source files and formatted with stack traces in the script and by the host, callbacks on pooled and unpooled child VMs through a host function and through the real strings module, nested callbacks, errors in callbacks, json/fmt modules, globals), each with optimizer on and off, " +
 			"plus every 37th/211th/53rd program of the C02/C03/C11 enumerations; each VM has its own globals (G = 100*(i+1), so interference changes values). " +
 			"Family schedules: N = 2 (thorough also 3) VMs run one Bytecode on N threads under the controlled scheduler (build of /repo's tree with sync/sync.Pool/atomic rewritten to the scheduler: every instruction's abort poll, every lock and every pool Get/Put is a scheduling point, pool Get chooses recycled|new); ALL schedules with <= 2 preemptions for dedicated programs and <= 1 for the others (thorough 3 / 2) are executed. " +
 			"Per execution: every run's canonical outcome (value or error name+message+formatted stack trace, probe log, globals) equals the outcome of the same VM index run alone; structural fingerprint of the Bytecode unchanged; the host's builtin-module attribute values unchanged; no panic, no deadlock; afterwards a run alone still gives the same outcome. " +
